@@ -446,11 +446,16 @@ static void mode_bin(vf::Ctx& c)
 		if (symlink(rel.c_str(), path.c_str()) != 0) viaLink = false;
 		else c.count("bin.path-is-a-symbolic-link");
 	}
-	c.desc(vf::fmt("binary file of %zu bytes%s", n, viaLink ? " written and read through a symbolic link" : ""));
+	// one case in sixteen runs with stdin closed, so that the file gets descriptor number 0
+	bool lowFd = c.idx % 16 == 9;
+	int savedStdin = -1;
+	if (lowFd) { savedStdin = dup(0); close(0); c.count("bin.cases_with_descriptor_0_free"); }
+	c.desc(vf::fmt("binary file of %zu bytes%s%s", n, viaLink ? " written and read through a symbolic link" : "", lowFd ? ", process running with stdin closed" : ""));
 	Bytes data = binary_content(c, n);
 	std::string how;
 	write_binary(c, path, data, how);
 	check_binary(c, path, data, true);
+	if (lowFd && savedStdin >= 0) { dup2(savedStdin, 0); close(savedStdin); }
 	c.distinct(vf::mix(vf::fnv(data), vf::fnv(how)));
 	if (c.want_sample() && c.idx % 97 == 3) c.sample(vf::fmt("%zu bytes (%s...) via %s; read back with open/read, size(), content(), firstBytes(k), read()", n, vf::hex(data.data(), n < 12 ? n : 12).c_str(), how.c_str()));
 }
@@ -1048,6 +1053,17 @@ static void mode_copy(vf::Ctx& c)
 		posix_read(d2, g2);
 		same(c, "copy.content", g2, data);
 		c.count("copy.second-generation");
+	}
+	// a move whose destination resolves to the file itself (same name, or the directory it is already in) leaves the content where it is
+	if (c.rng.chance(0.25)) {
+		int w = (int)c.rng.below(3);
+		std::string parent = dst.substr(0, dst.rfind('/'));
+		c.op(w == 0 ? "Directory::move(f, f)" : w == 1 ? "Directory::move(f, its own directory)" : "File(f).move(its own directory)");
+		if (w == 0) Directory::move(S(dst), S(dst)); else if (w == 1) Directory::move(S(dst), S(parent)); else File(S(dst)).move(S(parent));
+		Bytes g3;
+		if (!posix_read(dst, g3)) c.fail("move.onto-itself.file-lost", "the file no longer exists after a move onto itself");
+		else same(c, "move.onto-itself.content", g3, data);
+		c.count("move.onto-itself");
 	}
 	c.distinct(vf::mix(vf::fnv(data), v * 2 + over));
 	if (c.want_sample() && c.idx % 41 == 2) c.sample(c.curdesc() + "; destination read with open/read equals the source bytes");
